@@ -4,6 +4,9 @@
 # the end removed. /repo itself is never touched. usage: seedmatrix_par.sh [N] > matrix.log
 N=${1:-4}
 cd /verif
+# builds against scratch trees get a build cache of their own, removed afterwards (each tree path would
+# otherwise add about a gigabyte to the shared cache)
+export GOCACHE=/var/tmp/seed-gocache-$$
 ls -d seeded/*/ | xargs -n1 basename > /var/tmp/seedlist.$$
 worker() {
   w=$1; wt=/var/tmp/seedwt-$$-$w
@@ -26,3 +29,4 @@ for w in $(seq 0 $((N-1))); do worker $w & done
 wait
 rm -f /var/tmp/seedlist.$$
 git -C /repo worktree prune
+rm -rf $GOCACHE
